@@ -10,30 +10,37 @@ Oracle: `Ref` below is an independent Python interpreter of the *documented* rul
 matching rule wins; $N / %N captures; ${url.*}, ${qsa}; esc / escnde / escpsnde / noesc / tolower /
 toupper / encb64u / decb64u; rewrite-once vs rewrite-repeat with the loop limit; alias prefix
 replacement; simple-vhost and evhost document roots).  It abstains (returns no verdict) outside the
-documented domain: malformed templates, several encoders combined, a case modifier without an
-encoder, NUL bytes, a capture ending inside a %XX triplet, odd host names."""
+documented domain: malformed templates, several encoders combined, both case modifiers, NUL bytes, odd
+host names."""
 import base64, itertools, os, re, time
 from .. import common as C
 
 MANIFEST = dict(
-    text="Lean 4 theorems over an executable model of keyvalue.c (first-match rule selection; template substitution "
-         "proved equal to a token-level reference interpreter for every well-formed template: $N/%N captures, "
-         "${url.*}, ${qsa}, every sequence of documented modifiers), burl_append (percent-encoders, base64url "
-         "round trip, case mapping), the mod_rewrite once/repeat loop (bounded for every rule list and matcher), "
-         "mod_redirect, mod_alias_remap (exact prefix replacement) and the simple-vhost / evhost docroot "
-         "composition; the modifier->flag map and base64url tables are regenerated from the C on every run; the "
-         "model is tied to the C by differential runs against the real functions with real PCRE2 (trace-validated "
-         "captures) under ASan/UBSan, an independent Python interpreter of the documented rule semantics is the "
-         "oracle, and an end-to-end stream drives the real lighttpd (rewrite/redirect/alias/vhost configs) and "
-         "compares Location / resource served with that interpreter",
+    text="Lean 4 theorems over an executable model of keyvalue.c / burl_append / mod_rewrite / mod_redirect / "
+         "mod_alias / simple-vhost / evhost. PROVED over the model: first matching rule is applied (regex = its PCRE2 "
+         "verdict); template substitution equals an independently written reference interpreter (Proofs/"
+         "KeyValueSpec.lean: tokeniser-based per-token recodings, modifiers by name) for every well-formed template "
+         "with any modifier sequence, under decidable side conditions; esc/escnde/escpsnde preserve the "
+         "percent-decoded value, case modifiers (also on their own) = case map of the (default-)encoded value, "
+         "base64url round trip; the rewrite stage (both hooks, any per-pass configuration/matcher/filesystem) ends "
+         "within 102 passes and 101 rewrites; rewrite-once finality; -if-not-file applies exactly when the path is "
+         "not a regular file; alias replaces exactly the matched prefix (exact and nocase); host contributes no '/' "
+         "to vhost roots. The modifier->flag map and base64url tables are regenerated from the C on every run. TESTED, "
+         "not proved: that the model is the C code (differential runs against the real functions with real PCRE2, "
+         "trace-validated captures, ASan/UBSan), evhost label numbering, simple-vhost default-host fallback, "
+         "config-derived repeat_idx / %N source, COMEBACK dispatch (end-to-end streams against the real lighttpd incl. "
+         "every rewrite directive kind x filesystem kind), with an independent Python interpreter of the documented "
+         "semantics as oracle",
     note="trusted: Lean kernel, hand-written model validated by the h_keyvalue correspondence, PCRE2 matching "
          "(external; its results are inputs of the model, re-verified by the harness on every case; cross-checked "
-         "with Python re on the generated regex subset), in-process the COMEBACK dispatcher is emulated by the "
-         "harness (the real one is exercised by the end-to-end stream), filesystem checks of the vhost modules "
-         "(stat) are outside the model; the theorem about the modifier map and the toupper example do not check "
-         "while keyvalue.c maps \"upper:\" to BURL_TOLOWER",
-    tech="Lean 4 proof over hand-written model + differential correspondence (in-process C harness, real PCRE2) + "
-         "reference-interpreter oracle + end-to-end stream against the real server",
+         "with Python re on the generated regex subset), stat() (parameter of the model; real filesystem in harness "
+         "and e2e), in-process the COMEBACK dispatcher is emulated by the harness (the real one is exercised by the "
+         "end-to-end stream). The model describes the repaired behaviour of C20-D1 (a case modifier used alone) and "
+         "C20-D2 (escnde/escpsnde looked 2 bytes behind a capture ending in '%'): on a tree without these repairs "
+         "c20_modifier_map does not check resp. the app/subst streams disagree (replays labelled)",
+    tech="Lean 4 proof over hand-written model (incl. equivalence to an independent specification) + differential "
+         "correspondence (in-process C harness, real PCRE2, real stat) + reference-interpreter oracle + end-to-end "
+         "stream against the real server",
     ref="6/C20")
 
 hx, unhx = C.hx, C.unhx
@@ -66,7 +73,15 @@ def ref_pct_all(s):
     return b"".join(bytes([c]) if c in UNRESERVED else b"%%%02X" % c for c in s)
 
 
-def ref_pct_nde(s, keep_slash):
+def ref_pct_nde(s, keep_slash, look=b""):
+    if "nde-overread" in HYP and look:
+        # defect hypothesis: the two bytes behind the string complete an escape at its end
+        own = ref_pct_nde(s, keep_slash)
+        for k in (1, 2):
+            if len(s) >= k and s[-k] == 0x25 and is_pct(s + look[:2], len(s) - k):
+                x = int((s + look)[len(s) - k + 1:len(s) - k + 3], 16)
+                return ref_pct_nde(s[:len(s) - k], keep_slash) + (bytes([x]) if x in UNRESERVED else (s + look)[len(s) - k:len(s) - k + 3])
+        return own
     out, i = bytearray(), 0
     while i < len(s):
         if is_pct(s, i):
@@ -128,28 +143,23 @@ def ref_recode(flags, s, look=b""):
         return b""
     if flags == 0:
         return s
+    if "bare-case-empty" in HYP and not any(flags & f for f in ENCODERS):
+        return b""
     if 0 in s:
         raise Abstain
     enc = [f for f in ENCODERS if flags & f]
-    if len(enc) != 1 or (flags & F_LOWER and flags & F_UPPER) or flags > 255:
-        raise Abstain        # several encoders / none with a case modifier: not documented
-    e = enc[0]
-    if e in (F_NDE, F_PSNDE):
-        # the string ends inside a %XX triplet that the following bytes complete: quirk, skip
-        tail = s[-2:]
-        for k in (1, 2):
-            if len(s) >= k and s[-k] == 0x25:
-                cand = (s[len(s) - k:] + look)[:3]
-                if len(cand) == 3 and cand[1] in HEXD and cand[2] in HEXD:
-                    raise Abstain
+    if len(enc) > 1 or (flags & F_LOWER and flags & F_UPPER) or flags > 255:
+        raise Abstain        # several encoders / both case modifiers: precedence is not documented
+    # a case modifier on its own transforms the value as it is (no encoding)
+    e = enc[0] if enc else F_NONE
     if e == F_NONE:
         out = s
     elif e == F_ALL:
         out = ref_pct_all(s)
     elif e == F_NDE:
-        out = ref_pct_nde(s, False)
+        out = ref_pct_nde(s, False, look)
     elif e == F_PSNDE:
-        out = ref_pct_nde(s, True)
+        out = ref_pct_nde(s, True, look)
     elif e == F_ENC64:
         out = base64.urlsafe_b64encode(s).rstrip(b"=")
     else:
@@ -205,7 +215,12 @@ def ref_expand(tmpl, rule, cond, url):
             what = m.group(2)
             if what[:1].isdigit():
                 s, look = caps.get(int(what)) if caps is not None else (b"", b"")
-                out += ref_recode(flags or F_PSNDE, s, look)
+                # captures are escpsnde-encoded unless an encoding modifier is given; tolower / toupper
+                # alone do not switch the default encoding off
+                cf = flags if any(flags & f for f in ENCODERS) else flags | F_PSNDE
+                if "bare-case-empty" in HYP and flags and not any(flags & f for f in ENCODERS):
+                    cf = flags
+                out += ref_recode(cf, s, look)
             elif what == b"qsa":
                 if url.query is not None:
                     if 0 in out:
@@ -522,12 +537,12 @@ def reference(line):
         code = int(t[1]) or (301 if (t[2] == "1" or t[3] == "1") else 308)
         return "%d %s" % (code, hx(r[2]))
     if op == "rw":
-        if int(t[8]) != 0:
+        if int(t[9]) != 0:
             raise Abstain      # URL normalisation of the rewritten target is C02's subject
         pats, tmpls = p_rules(t[2])
         au = p_opt(t[6])
-        au = au.lower() if au else b"server.name"
-        r = ref_rewrite(int(t[1]), tmpls, p_table(t[9]), unhx(t[3]), p_cond(t[4]), p_opt(t[5]), au, int(t[7]))
+        au = au.lower() if au else unhx(t[7])        # no Host: the server name
+        r = ref_rewrite(int(t[1]), tmpls, p_table(t[10]), unhx(t[3]), p_cond(t[4]), p_opt(t[5]), au, int(t[8]))
         return "served %s %d" % (hx(r[1]), r[2]) if r[0] == "served" else "failed %d" % r[1]
     if op == "nf":
         # url.rewrite[-repeat]-if-not-file: applies unless the physical path is a regular file (stat follows links)
@@ -538,10 +553,10 @@ def reference(line):
         if t[2] == "1" or not tmpls or t[1] in ("reg", "lnreg"):
             return "go"
         au = p_opt(t[8])
-        au = au.lower() if au else b"server.name"
+        au = au.lower() if au else unhx(t[9])
         q = target.find(b"?")
-        url = Url(p_opt(t[7]), au, int(t[9]), target, None if q < 0 else target[q + 1:])
-        r = ref_process(tmpls, p_trace(t[10]), target, p_cond(t[6]), url)
+        url = Url(p_opt(t[7]), au, int(t[10]), target, None if q < 0 else target[q + 1:])
+        r = ref_process(tmpls, p_trace(t[11]), target, p_cond(t[6]), url)
         if r[0] == "go":
             return "go"
         if r[0] == "err" or not r[2].startswith(b"/"):
@@ -562,7 +577,8 @@ def reference(line):
 
 def label_mismatch(ref, got):
     """name the defect a mismatch is explained by (only used to word the report)"""
-    for hyp, label in (("toupper-lowers", " (toupper)"), ("b64-invalid-char-ends-input", " (decb64u)")):
+    for hyp, label in (("toupper-lowers", " (toupper)"), ("b64-invalid-char-ends-input", " (decb64u)"),
+                       ("bare-case-empty", " (bare case modifier)"), ("nde-overread", " (reads behind the capture)")):
         HYP.add(hyp)
         try:
             if ref() == got:
@@ -638,7 +654,8 @@ def classify(line, out):
         return "redir:%s:%s:%s" % (o[0], t[2], t[3])
     if op == "rw":
         n = int(o[-1]) if o[-1].isdigit() else -1
-        return "rw:%s:%s:opts%s:ridx%s" % (o[0], "n%d" % n if n < 3 else ("n3+" if n < 100 else "nmax"), t[8], t[1])
+        return "rw:%s:%s:opts%s:ridx%s:%s" % (o[0], "n%d" % n if n < 3 else ("n3+" if n < 100 else "nmax"), t[9], t[1],
+                                              "nohost" if t[6] in ("~", "-") else "host")
     if op == "nf":
         return "nf:%s:h%s:%s" % (t[1], t[2], o[0])
     if op == "alias":
@@ -749,9 +766,9 @@ def rand_placeholder(rng, maxcap=6):
     elif r < 0.6:
         a, b = rng.choice(CASE_MODS), rng.choice(ENC_MODS)
         mods = (a + b":" + b + b":") if rng.random() < 0.5 else (b + b":" + a + b":")
-    elif r < 0.68:
-        mods = rng.choice(CASE_MODS) + b":"
-    elif r < 0.74:
+    elif r < 0.70:
+        mods = rng.choice(CASE_MODS) + b":"          # a case modifier on its own
+    elif r < 0.76:
         mods = b"".join(rng.choice(MOD_NAMES) + b":" for _ in range(rng.randint(2, 3)))
     if k < 0.6:
         num = rng.randint(0, maxcap) if rng.random() < 0.85 else rng.randint(7, 25)
@@ -966,6 +983,7 @@ RW_FIXED = [
     (0, [(rb"^/d/(.*)$", b"/%2e%2e/$1"), (rb"^/\.\./", b"/never")], [b"/d/x"]),
 ]
 RW_OPTS = [0, 0, 0, 8 | 16, 8 | 32 | 1024, 8 | 16 | 64 | 256 | 1024 | 8192]
+SRVNAMES = [b"server.name", b"Srv.Example", b"", b"x"]
 
 
 def gen_rw(ctx):
@@ -973,8 +991,12 @@ def gen_rw(ctx):
     for ridx, rules, targets in RW_FIXED:
         for t in targets:
             for opts in (0, 8 | 16 | 1024):
-                lines.append("rw %d %s %s ~ %s %s 80 %d ?" % (ridx, rules_tok(rules), hx(t), hx(b"http"),
-                                                              hx(b"Www.Example.com"), opts))
+                lines.append("rw %d %s %s ~ %s %s %s 80 %d ?" % (ridx, rules_tok(rules), hx(t), hx(b"http"),
+                                                                 hx(b"Www.Example.com"), hx(b"server.name"), opts))
+    for au in ("~", "-", hx(b"H.Example")):
+        for sn in SRVNAMES:
+            lines.append("rw 0 %s %s ~ %s %s %s 80 0 ?" % (rules_tok([(rb"^/who$", b"/${url.authority}/${tolower:url.authority}", None)]),
+                                                          hx(b"/who"), hx(b"http"), au, hx(sn)))
     for _ in range(n_cases(ctx, 36000)):
         rules = []
         for _ in range(rng.randint(1, 4)):
@@ -996,9 +1018,10 @@ def gen_rw(ctx):
         t = rand_target(rng, rules)
         if rng.random() < 0.05:
             t += b"#frag"
-        lines.append("rw %d %s %s %s %s %s %d %d ?" % (
+        lines.append("rw %d %s %s %s %s %s %s %d %d ?" % (
             ridx, rules_tok(rules), hx(t), rand_cond(rng), hx(rng.choice([b"http", b"https"])),
-            rng.choice([hx(h) for h in HOSTS] + ["~"]), rng.choice([80, 443, 8080]), rng.choice(RW_OPTS)))
+            rng.choice([hx(h) for h in HOSTS] + ["~", "~", "-"]), hx(rng.choice(SRVNAMES)), rng.choice([80, 443, 8080]),
+            rng.choice(RW_OPTS)))
     return lines
 
 
@@ -1014,15 +1037,16 @@ def gen_nf(ctx):
         for handler in (0, 1):
             for ridx in (0, 1):
                 for t in (b"/app", b"/app/", b"/app/x?y=1", b"/other"):
-                    lines.append("nf %s %d %d %s %s ~ %s %s 80 ?" % (kind, handler, ridx, rules_tok(front), hx(t),
-                                                                    hx(b"http"), hx(b"Www.Example.com")))
-            lines.append("nf %s %d 0 . %s ~ %s %s 80 ?" % (kind, handler, hx(b"/app"), hx(b"http"), hx(b"h")))
+                    lines.append("nf %s %d %d %s %s ~ %s %s %s 80 ?" % (kind, handler, ridx, rules_tok(front), hx(t),
+                                                                       hx(b"http"), hx(b"Www.Example.com"), hx(b"srv")))
+            lines.append("nf %s %d 0 . %s ~ %s %s %s 80 ?" % (kind, handler, hx(b"/app"), hx(b"http"), hx(b"h"), hx(b"srv")))
     for _ in range(n_cases(ctx, 12000)):
         rules = rand_rules(rng, 3)
         t = rand_target(rng, rules)
-        lines.append("nf %s %d %d %s %s %s %s %s %d ?" % (
+        lines.append("nf %s %d %d %s %s %s %s %s %s %d ?" % (
             rng.choice(FS_KINDS), rng.random() < 0.1, rng.randint(0, len(rules)), rules_tok(rules), hx(t), rand_cond(rng),
-            hx(rng.choice([b"http", b"https"])), rng.choice([hx(h) for h in HOSTS] + ["~"]), rng.choice([80, 443])))
+            hx(rng.choice([b"http", b"https"])), rng.choice([hx(h) for h in HOSTS] + ["~", "-"]), hx(rng.choice(SRVNAMES)),
+            rng.choice([80, 443])))
     return lines
 
 
@@ -1135,13 +1159,15 @@ def fill_traces(ctx, exe, lines):
 E2E_ONCE = [(rb"^/once/([^?]*)(\?.*)?$", b"/files/$1$2"), (rb"^/both/(.*)$", b"/rep/a/$1"), (rb"^/blank/", b"")]
 E2E_REPEAT = [(rb"^/rep/a/(.*)$", b"/rep/b/$1"), (rb"^/rep/b/(.*)$", b"/files/$1"), (rb"^/loop/(.*)$", b"/loop/x$1"),
               (rb"^/strip/[^/?]+/(.+)$", b"/strip/$1"), (rb"^/low/(.*)$", b"/files/${tolower:noesc:1}"),
-              (rb"^/up/(.*)$", b"/files/${toupper:noesc:1}"), (rb"^/q/([^?]*)", b"/files/q.txt?orig=${esc:1}${qsa}"),
+              (rb"^/up/(.*)$", b"/files/${toupper:noesc:1}"), (rb"^/blow/(.*)$", b"/files/${tolower:1}"),
+              (rb"^/bup/(.*)$", b"/files/${toupper:1}"), (rb"^/q/([^?]*)", b"/files/q.txt?orig=${esc:1}${qsa}"),
               (rb"^/bad/(.*)$", b"nolead/$1"), (rb"^/blank/x", b"/files/a.txt")]
 E2E_REDIRECT = [(rb"^/redir/([^?]*)", b"http://other.example/$1${qsa}"),
                 (rb"^/rscheme/(.*)$", b"${url.scheme}://${url.authority}:${url.port}/n/$1"),
                 (rb"^/rb64/([^?]*)", b"/d/${encb64u:1}/${decb64u:1}"), (rb"^/rpath", b"/np${url.path}?${url.query}"),
                 (rb"^/files/secret", b"/denied"),
-                (rb"^/resc/(.*)$", b"/e/${esc:1}/${escnde:1}/${escpsnde:1}/${noesc:1}/${1}/$$%%$1")]
+                (rb"^/resc/(.*)$", b"/e/${esc:1}/${escnde:1}/${escpsnde:1}/${noesc:1}/${1}/$$%%$1"),
+                (rb"^/rhost/(.*)$", b"http://${tolower:url.authority}/${toupper:1}?${tolower:url.query}")]
 E2E_COND = rb"^(\w+)\.cond\.example(?::\d+)?$"
 E2E_COND_REDIRECT = [(rb"^/c/(.*)$", b"/host/%1/$1"), (rb"^/c0/(.*)", b"/%0/$1")]
 E2E_ALIAS = [(b"/al/", b"@ROOT@/aliased/"), (b"/al2", b"@ROOT@/aliased2")]
@@ -1217,7 +1243,7 @@ def e2e_expect_a(root, docroot, port, host, target, files):
 E2E_SEGS = [b"a.txt", b"b/c.txt", b"A.TXT", b"q.txt", b"secret.txt", b"nope.txt", b"x.txt", b"sub/y.txt", b"z.txt",
             b"B/C.TXT", b"a~b!c", b"x%20y", b"Mixed.Case", b"xa.txt", b"QUJD", b"aGVsbG8", b"n0t*b64"]
 E2E_PREFIXES = [b"/files/", b"/once/", b"/both/", b"/blank/", b"/rep/a/", b"/rep/b/", b"/loop/", b"/strip/p/q/",
-                b"/strip/", b"/low/", b"/up/", b"/q/", b"/bad/", b"/redir/", b"/rscheme/", b"/rb64/", b"/rpath/",
+                b"/strip/", b"/low/", b"/up/", b"/blow/", b"/bup/", b"/rhost/", b"/q/", b"/bad/", b"/redir/", b"/rscheme/", b"/rb64/", b"/rpath/",
                 b"/resc/", b"/c/", b"/c0/", b"/al/", b"/al2/", b"/al2", b"/al", b"/other/", b"/blank/x", b"/al2../"]
 E2E_HOSTS = [b"localhost", b"www.cond.example", b"Api.Cond.Example:8080", b"cond.example", b"x.y.cond.example", b"h.example:81"]
 
